@@ -34,7 +34,9 @@ def _check(prop, tier, seed, replay, work, t0):
         druns.append({"rename": rn, "failover": fo, "dbs": dbs, "distinct": r["distinct"]})
     shards = vlib.NCPU
     n, reps = (96, 4) if tier == "quick" else (640, 8)
-    cmds = [[drv, "-seed", str(seed), "-n", str(n), "-reps", str(reps), "-shard", str(i), "-shards", str(shards),
+    for i in range(shards):
+        os.makedirs(os.path.join(work, "gc%d" % i), exist_ok=True)
+    cmds = [[drv, "-seed", str(seed), "-n", str(n), "-reps", str(reps), "-work", os.path.join(work, "gc%d" % i), "-shard", str(i), "-shards", str(shards),
              "-out", os.path.join(work, "t%d.ndjson" % i), "-stats", os.path.join(work, "s%d.json" % i)] for i in range(shards)]
     for rc, out in vlib.run_parallel(cmds, timeout=3000):
         if rc != 0:
